@@ -13,7 +13,7 @@ import (
 func init() {
 	register(&Spec{
 		ID:          "C12",
-		Loads:       []LoadSpec{{Patterns: []string{"./contractcourt", "./htlcswitch"}}},
+		Loads:       []LoadSpec{{Patterns: []string{"./contractcourt", "./htlcswitch", "./lnwallet"}}},
 		Explanation: "Decides the go-to-chain predicate (false exactly below expiry - delta; received HTLCs always, offered ones if forwarded or past the grace period), that offered HTLCs are timed against the outgoing delta and received ones against the incoming delta and only when the preimage is known, that every HTLC of the confirmed commitment receives exactly one disposition per direction, that the two dangling-HTLC passes share their guard chain and fail back only HTLCs absent from the confirmed (resp. local) set whose preimage is unknown, that every produced chain action has a consumer, that the confirmed-commitment key selects the matching evaluation and the chain watcher records the key of the commitment that actually matched, and that each resolver-producing action appends one resolver per HTLC with a resolution.",
 		NotDecided: []string{
 			"the HTLC sets themselves and their subset relations", "block timing relative to each expiry",
